@@ -71,8 +71,10 @@ type WorldSpec struct {
 	HashNoParams bool       `json:"hash_no_params,omitempty"`
 	ExtraCerts   int        `json:"extra_certs,omitempty"`
 	NameVariant  bool       `json:"name_variant,omitempty"`
-	Untrusted    bool       `json:"untrusted,omitempty"` // CSCA not in the terminal's trust store
-	DecoyAnchors int        `json:"decoys,omitempty"`    // other countries' / same-SKI anchors in the store
+	Untrusted    bool       `json:"untrusted,omitempty"`      // CSCA not in the terminal's trust store
+	DecoyAnchors int        `json:"decoys,omitempty"`         // other countries' / same-SKI anchors in the store
+	SameSKIDecoy bool       `json:"same_ski_decoy,omitempty"` // same-country anchor with the same key identifier but another key, listed first
+	SignEdge     int        `json:"sign_edge,omitempty"`      // 0 inside; 1 DS.notBefore; 2 DS.notAfter; 3 DS.notBefore-1s; 4 DS.notAfter+1s; 5 CSCA.notAfter; 6 CSCA.notAfter+1s; 7 CSCA.notBefore; 8 CSCA.notBefore-1s
 
 	BAC      bool       `json:"bac,omitempty"`
 	PACE     []PaceSpec `json:"pace,omitempty"`
@@ -97,28 +99,33 @@ type WorldSpec struct {
 
 // World is a materialised world.
 type World struct {
-	Spec     WorldSpec
-	Rng      *core.Rng
-	Holder   lds.Holder
-	CAN      string
-	Alpha2   string
-	T0       time.Time // CSCA notBefore
-	SignTime time.Time
-	CSCAKey  *pki.Key
-	CSCACert *pki.Cert
-	DSKey    *pki.Key
-	DSCert   *pki.Cert
-	Extra    []*pki.Cert
-	SOD      *pki.SignedData
-	CardSec  *pki.SignedData
-	DGHashes map[int][]byte
-	DGOrder  []int
-	LDS      map[uint16][]byte
-	MF       map[uint16][]byte
-	Pers     *chip.Personalisation
-	Pool     cms.CertPool
-	AAKey    *chip.AAKey
-	CAKeys   []chip.CAKey
+	Spec                                                 WorldSpec
+	Rng                                                  *core.Rng
+	Holder                                               lds.Holder
+	CAN                                                  string
+	Alpha2                                               string
+	T0                                                   time.Time // CSCA notBefore
+	SignTime                                             time.Time
+	CSCAKey                                              *pki.Key
+	CSCACert                                             *pki.Cert
+	DSKey                                                *pki.Key
+	DSCert                                               *pki.Cert
+	Extra                                                []*pki.Cert
+	SOD                                                  *pki.SignedData
+	SODSpec                                              pki.SignedDataSpec
+	LSO                                                  []byte
+	CSCAName                                             pki.Name
+	DSName                                               pki.Name
+	DSNotBefore, DSNotAfter, CSCANotBefore, CSCANotAfter time.Time
+	CardSec                                              *pki.SignedData
+	DGHashes                                             map[int][]byte
+	DGOrder                                              []int
+	LDS                                                  map[uint16][]byte
+	MF                                                   map[uint16][]byte
+	Pers                                                 *chip.Personalisation
+	Pool                                                 cms.CertPool
+	AAKey                                                *chip.AAKey
+	CAKeys                                               []chip.CAKey
 }
 
 func (k KeySpec) make(rng *core.Rng) *pki.Key {
@@ -148,6 +155,30 @@ func Build(spec WorldSpec) *World {
 	w.SignTime = t2.AddDate(0, rng.Range(0, 30), rng.Intn(28)) // within DS window (3 years)
 	cscaNotAfter := w.T0.AddDate(15, 0, 0)
 	dsNotAfter := t2.AddDate(3, 0, 0)
+	cscaNotBefore := w.T0
+	switch spec.SignEdge {
+	case 1:
+		w.SignTime = t2
+	case 2:
+		w.SignTime = dsNotAfter
+	case 3:
+		w.SignTime = t2.Add(-time.Second)
+	case 4:
+		w.SignTime = dsNotAfter.Add(time.Second)
+	case 5, 6: // CSCA expires inside the DS window
+		cscaNotAfter = t2.AddDate(1, 0, 0)
+		w.SignTime = cscaNotAfter
+		if spec.SignEdge == 6 {
+			w.SignTime = cscaNotAfter.Add(time.Second)
+		}
+	case 7, 8: // CSCA becomes valid inside the DS window
+		cscaNotBefore = t2.AddDate(0, 6, 0)
+		w.SignTime = cscaNotBefore
+		if spec.SignEdge == 8 {
+			w.SignTime = cscaNotBefore.Add(-time.Second)
+		}
+	}
+	w.DSNotBefore, w.DSNotAfter, w.CSCANotBefore, w.CSCANotAfter = t2, dsNotAfter, cscaNotBefore, cscaNotAfter
 
 	// ---- issuer
 	w.CSCAKey = spec.CSCA.make(rng)
@@ -155,8 +186,9 @@ func Build(spec WorldSpec) *World {
 	cscaName := pki.CountryName(w.Alpha2, "Sim Gov", "CSCA "+w.Alpha2)
 	dsName := pki.CountryName(w.Alpha2, "Sim Gov", "DS "+w.Alpha2)
 	cscaSKI := pki.SKIOf(w.CSCAKey)
+	w.CSCAName, w.DSName = cscaName, dsName
 	w.CSCACert = pki.Issue(pki.CertSpec{
-		Serial: new(big.Int).SetUint64(rng.U64() >> 1), Issuer: cscaName, Subject: cscaName, NotBefore: w.T0, NotAfter: cscaNotAfter,
+		Serial: new(big.Int).SetUint64(rng.U64() >> 1), Issuer: cscaName, Subject: cscaName, NotBefore: cscaNotBefore, NotAfter: cscaNotAfter,
 		Key: w.CSCAKey, SKI: cscaSKI, AKI: cscaSKI, IsCA: true, PathLen: 0, KeyUsageBits: []int{pki.KUKeyCertSign, pki.KUCRLSign},
 	}, w.CSCAKey, spec.CSCAScheme.scheme(), rng)
 	w.DSCert = pki.Issue(pki.CertSpec{
@@ -342,6 +374,7 @@ func Build(spec WorldSpec) *World {
 	if spec.NameVariant && spec.SIDForm != "ski" {
 		sd.SIDIssuer = cscaName.Reordered(true)
 	}
+	w.SODSpec, w.LSO = sd, lso
 	w.SOD = pki.BuildSignedData(sd, rng)
 	w.LDS[chip.FidSOD] = pki.WrapSOD(w.SOD.DER)
 	var comDGs []int
@@ -362,6 +395,13 @@ func Build(spec WorldSpec) *World {
 		}
 		dn := pki.CountryName(cc, "Decoy", "CSCA "+cc)
 		dc := pki.Issue(pki.CertSpec{Serial: big.NewInt(int64(1000 + i)), Issuer: dn, Subject: dn, NotBefore: w.T0, NotAfter: cscaNotAfter, Key: dk, SKI: ski, AKI: ski, IsCA: true, PathLen: 0, KeyUsageBits: []int{pki.KUKeyCertSign}}, dk, pki.Scheme{Kind: "ecdsa", Hash: "SHA256"}, rng)
+		if err := pool.Add(dc.DER); err != nil {
+			panic("harness: decoy anchor rejected by pool: " + err.Error())
+		}
+	}
+	if spec.SameSKIDecoy {
+		dk := pki.NewECKey(12, rng, false)
+		dc := pki.Issue(pki.CertSpec{Serial: big.NewInt(77), Issuer: cscaName, Subject: cscaName, NotBefore: cscaNotBefore, NotAfter: cscaNotAfter, Key: dk, SKI: cscaSKI, AKI: cscaSKI, IsCA: true, PathLen: 0, KeyUsageBits: []int{pki.KUKeyCertSign}}, dk, pki.Scheme{Kind: "ecdsa", Hash: "SHA256"}, rng)
 		if err := pool.Add(dc.DER); err != nil {
 			panic("harness: decoy anchor rejected by pool: " + err.Error())
 		}
@@ -404,3 +444,6 @@ func (w *World) PasswordFor() (*password.Password, error) {
 func (w *World) NewChip() *chip.Chip {
 	return chip.New(w.Pers, w.Spec.B, core.NewRng(core.SubSeed(w.Spec.Seed, "chip")))
 }
+
+// CSCAScheme2 returns the pki.Scheme the CSCA signs certificates with.
+func (s WorldSpec) CSCAScheme2() pki.Scheme { return s.CSCAScheme.scheme() }
